@@ -412,6 +412,13 @@ def c04_programs(seed, tier):
     for s in (setter("transform", tf((0.0, 0.0, 0.0, 1.0), (1.0, 2.0, 3.0))), setter("acq_start", dt(5.0)), setter("acq_end", dt(6.0, False)),
               setter("original_guids", ["a", "b", "c"]), setter("original_guids", [])):
         out.append(prog(f"only_pc_{s['f']}_{len(out)}", [new("g"), pc(p0, 1, setters=[s]), FIN]))
+    # values equal to the defaults a reader would assume must still come back as set (not as absent)
+    for i, t in enumerate((tf(), tf((1.0, -0.0, 0.0, -0.0), (-0.0, 0.0, 0.0)), tf((0.0, 0.0, 0.0, 0.0), (0.0, 0.0, 0.0)))):
+        out.append(prog(f"default_valued_pose{i}", [new("g"), pc(p0, 1, setters=[setter("transform", t)]),
+                                                    image([rep("visual", 5)], setters=[setter("transform", t)]), FIN]))
+    out.append(prog("default_valued_others", [new("g"), {"op": "coord", "v": ""}, {"op": "creation", "v": dt(0.0, False)},
+                                              pc(p0, 1, setters=[setter("temperature", f64(0.0)), setter("humidity", f64(0.0)), setter("pressure", f64(0.0)),
+                                                                 setter("acq_start", dt(0.0, False)), setter("original_guids", [])]), FIN]))
     for f in IM_STR:
         out.append(prog(f"only_im_{f}", [new("g"), image([rep("visual", 5)], setters=[setter(f, f"only-{f}")]), FIN]))
     out.append(prog("only_coord", [new("g"), {"op": "coord", "v": "c"}, FIN]))
